@@ -43,16 +43,14 @@ Definition rt_strcmp (l r : list Z) : option Z :=
 
 (* strncmp: at most n characters, characters after a null are not compared.  Defined when each
    array either holds a null among its first n characters or has at least n characters *)
-Fixpoint cprefix (n : nat) (buf : list Z) : option (list Z) :=
-  match n with
-  | O => Some []
-  | S k => match buf with
-           | [] => None
-           | c :: rest => if c =? 0 then Some [] else option_map (cons c) (cprefix k rest)
-           end
-  end.
+Fixpoint cprefix (n : Z) (buf : list Z) : option (list Z) :=
+  if n <=? 0 then Some []
+  else match buf with
+       | [] => None
+       | c :: rest => if c =? 0 then Some [] else option_map (cons c) (cprefix (n - 1) rest)
+       end.
 Definition rt_strncmp (l r : list Z) (n : Z) : option Z :=
-  match cprefix (Z.to_nat n) l, cprefix (Z.to_nat n) r with
+  match cprefix n l, cprefix n r with
   | Some a, Some b => Some (lex_cmp a b)
   | _, _ => None
   end.
@@ -67,8 +65,10 @@ Definition rt_strchr (buf : list Z) (ch : Z) : option (option Z) :=
 
 (* memchr: first occurrence of (unsigned char)ch among the first n bytes.  Defined when the match
    lies inside the array or the array has at least n bytes *)
+Fixpoint take_z (n : Z) (l : list Z) : list Z :=   (* firstn with a Z count *)
+  if n <=? 0 then [] else match l with [] => [] | a :: t => a :: take_z (n - 1) t end.
 Definition rt_memchr (buf : list Z) (ch n : Z) : option (option Z) :=
-  match index_of (wrapu 8 ch) (firstn (Z.to_nat n) buf) 0 with
+  match index_of (wrapu 8 ch) (take_z n buf) 0 with
   | Some i => Some (Some i)
   | None => if n <=? Z.of_nat (length buf) then Some None else None
   end.
